@@ -177,12 +177,14 @@ what they establish: a shard's answer for `k` depends on the entries of `k` only
 
 /-- For ANY routing function the sharded table answers every script — Lock/RLock/Locks/RLocks and their releases, in any
 mix, through any API on the same key, READ lists with repeated keys included, legal or not — exactly as the single table: same grants, same blocked calls, same
-wake-ups, same refusals. (Shard counts, primes, modulo or xxhash routing are all instances of `idx`.) -/
-theorem sharded_locks_equiv (idx : Key → Nat) (reqs : List LReq) :
-    outs (shLockStep idx) ShLockSt.empty reqs = outs lockStep LockSt.empty reqs :=
-  (Nv.C04.sim_outs (shLockStep idx) lockStep
+wake-ups, same refusals. (Shard counts, primes, modulo or xxhash routing are all instances of `idx`; `cap` = readers
+admitted per key at a time: 0 = unlimited for the key lockers, `rwRatio` for the semaphore maps — the wide semaphore
+map and the single one must be built with the SAME ratio, whatever it is.) -/
+theorem sharded_locks_equiv (cap : Nat) (idx : Key → Nat) (reqs : List LReq) :
+    outs (shLockStep cap idx) ShLockSt.empty reqs = outs (lockStep cap) LockSt.empty reqs :=
+  (Nv.C04.sim_outs (shLockStep cap idx) (lockStep cap)
     (fun s l => Rel idx s.shards l.holds ∧ s.waiter = l.waiter) (fun _ => True)
-    (fun s l req hr _ => lock_step_sim idx s l hr.1 hr.2 req)
+    (fun s l req hr _ => lock_step_sim cap idx s l hr.1 hr.2 req)
     reqs ShLockSt.empty LockSt.empty
     ⟨⟨fun h => by simp [ShLockSt.empty, LockSt.empty], fun i h hh => by simp [ShLockSt.empty] at hh⟩, rfl⟩
     (fun _ _ => trivial)).1
@@ -196,16 +198,23 @@ theorem lock_order_ascending (idx : Key → Nat) (keys : List Key) :
 
 /-- a READ list may name a key twice: it is then held twice (as by the unsharded locker), and one single-key release
 leaves one hold — a writer still blocks -/
-example : outs (shLockStep (fun k => k.bits % 3)) ShLockSt.empty
+example : outs (shLockStep 0 (fun k => k.bits % 3)) ShLockSt.empty
     [.acq 0 [⟨.i64, 5, "", 0⟩, ⟨.i64, 9, "", 0⟩, ⟨.i64, 5, "", 0⟩] false, .rel 0 [⟨.i64, 5, "", 0⟩] false,
      .acq 1 [⟨.i64, 5, "", 0⟩] true, .rel 0 [⟨.i64, 5, "", 0⟩] false, .acq 2 [⟨.i64, 5, "", 0⟩, ⟨.i64, 5, "", 0⟩] true] =
     [.granted, .released none, .parked, .released (some 1), .illegal] := by decide
 
 /-- a concrete script: Locks([k]) through the multi-key API, then Lock(k) from another thread blocks, Unlock(k) through the
 single-key API releases it and wakes the waiter -/
-example : outs (shLockStep (fun k => k.bits % 3)) ShLockSt.empty
+example : outs (shLockStep 0 (fun k => k.bits % 3)) ShLockSt.empty
     [.acq 0 [⟨.i64, 5, "", 0⟩] true, .acq 1 [⟨.i64, 5, "", 0⟩] true, .rel 0 [⟨.i64, 5, "", 0⟩] true, .rel 2 [⟨.i64, 5, "", 0⟩] true] =
     [.granted, .parked, .released (some 1), .illegal] := by decide
+
+/-- a semaphore map with ratio 2: the third reader of a key blocks, readers of another key do not, and it is woken
+by a release of ITS key only -/
+example : outs (shLockStep 2 (fun k => k.bits % 3)) ShLockSt.empty
+    [.acq 0 [⟨.str, 0, "6b", 1⟩] false, .acq 1 [⟨.str, 0, "6b", 1⟩] false, .acq 2 [⟨.str, 0, "6a", 2⟩] false,
+     .acq 3 [⟨.str, 0, "6b", 1⟩] false, .rel 2 [⟨.str, 0, "6a", 2⟩] false, .rel 0 [⟨.str, 0, "6b", 1⟩] false] =
+    [.granted, .granted, .granted, .parked, .released none, .released (some 3)] := by decide
 
 /-! ### what the unproved configurations do -/
 
